@@ -32,6 +32,7 @@ REV = {
  'fix: simple SETATTR with a huge size': ('D20', [('C17','C17.V5'),('C11','C11.V5')]),
  'fix: after a crash the allocators ignored': ('D1', [('C01','C01.R4')]),
  'fix: a crash during mkfs left a disk': ('D2', [('C01','C01.R5')]),
+ 'fix: READDIR/READDIRPLUS with a cookie that is not': ('D33', [('C11','C11.V9')]),
  'fix: a WRITE aborted for lack of space': ('D32', [('C09','C09.A2'),('C10','C10.W4')]),
 }
 def sh(*a, **k): return subprocess.run(a, capture_output=True, text=True, **k)
